@@ -20,7 +20,7 @@ type c14Scenario struct {
 }
 
 func runC14(h *H) {
-	h.Rule("2..8 sessions on one server with the in-memory backend, each running its own command list concurrently (no synchronisation between sessions) over mailboxes A, B, C pre-filled with messages: targeted scenarios (COPY and MOVE in opposite directions between two mailboxes, expunge during fetch, LIST/STATUS during RENAME/DELETE/CREATE, IDLE while another session appends, STORE during COPY) repeated many times, plus seeded random command mixes. Every command has a watchdog; a command that gets no tagged completion within the limit is a stall: the histories of all sessions and a goroutine dump are the replay. With VERIF_RACE=1 the same run is executed by a -race build and race reports involving imapserver packages are violations. Non-trivial = at least two sessions ran a mutating command on a shared mailbox; distinct by scenario and seed.")
+	h.Rule("2..8 sessions on one server with the in-memory backend, each running its own command list concurrently (no synchronisation between sessions) over mailboxes A, B, C pre-filled with messages: targeted scenarios (COPY and MOVE in opposite directions between two mailboxes, expunge during fetch, LIST/STATUS during RENAME/DELETE/CREATE, LIST/LSUB during SUBSCRIBE/UNSUBSCRIBE, IDLE while another session appends, STORE during COPY) repeated many times, plus seeded random command mixes. Every command has a watchdog; a command that gets no tagged completion within the limit is a stall: the histories of all sessions and a goroutine dump are the replay. With VERIF_RACE=1 the same run is executed by a -race build and race reports involving imapserver packages are violations. Non-trivial = at least two sessions ran a mutating command on a shared mailbox; distinct by scenario and seed.")
 
 	runScenario := func(sc c14Scenario, src string) {
 		desc := map[string]interface{}{"scenario": sc}
@@ -168,6 +168,7 @@ func runC14(h *H) {
 		{"copy-move-status", [][]string{{"SELECT A", "COPY 1:10 B"}, {"SELECT B", "MOVE 1 A"}, {"STATUS A (MESSAGES UNSEEN)", "STATUS B (MESSAGES)", `LIST "" *`}}, rep},
 		{"expunge-during-fetch", [][]string{{"SELECT A", "FETCH 1:* (FLAGS BODY.PEEK[])"}, {"SELECT A", `STORE 1:* +FLAGS (\Deleted)`, "EXPUNGE", "APPEND A"}, {"SELECT A", "UID FETCH 1:* FLAGS", "NOOP"}}, rep},
 		{"list-during-rename", [][]string{{`LIST "" *`, `LIST "" % RETURN (STATUS (MESSAGES))`, "STATUS C (MESSAGES)"}, {"RENAME C D", "RENAME D C"}, {"CREATE X", "DELETE X"}, {"SELECT C", "FETCH 1 FLAGS", "UNSELECT"}}, rep},
+		{"list-during-subscribe", [][]string{{`LIST "" *`, `LSUB "" *`, `LIST (SUBSCRIBED) "" *`}, {"SUBSCRIBE A", "UNSUBSCRIBE A", "SUBSCRIBE B"}, {"UNSUBSCRIBE B", "SUBSCRIBE C", `LIST "" % RETURN (SUBSCRIBED)`}}, rep},
 		{"store-during-copy", [][]string{{"SELECT A", `STORE 1:* +FLAGS (\Seen)`, `STORE 1:* -FLAGS (\Seen)`}, {"SELECT A", "COPY 1:5 C"}, {"SELECT C", "SEARCH SEEN", "UID SEARCH ALL"}}, rep},
 	}
 	for _, sc := range scenarios {
@@ -176,7 +177,8 @@ func runC14(h *H) {
 	// random mixes
 	verbs := []string{"SELECT A", "SELECT B", "SELECT C", "EXAMINE A", "FETCH 1:* FLAGS", "UID FETCH 1:* (FLAGS)", "COPY 1:3 A", "COPY 1:3 B", "COPY 1 C",
 		"MOVE 1 A", "MOVE 1 B", "UID MOVE 1:2 C", `STORE 1:* +FLAGS (\Deleted)`, `STORE 1 -FLAGS (\Deleted)`, "EXPUNGE", "UID EXPUNGE 1:*", "NOOP", "CLOSE", "UNSELECT",
-		"STATUS A (MESSAGES)", "STATUS B (MESSAGES UIDNEXT)", `LIST "" *`, "APPEND A", "APPEND B", "SEARCH ALL", "UID SEARCH DELETED"}
+		"STATUS A (MESSAGES)", "STATUS B (MESSAGES UIDNEXT)", `LIST "" *`, "APPEND A", "APPEND B", "SEARCH ALL", "UID SEARCH DELETED",
+		"SUBSCRIBE A", "UNSUBSCRIBE A", `LSUB "" *`}
 	for i := 0; i < nrand; i++ {
 		sc := c14Scenario{Name: fmt.Sprintf("random-%d", i), Repeat: h.Pick(10, 30)}
 		for s := 2 + h.Rng.Intn(h.Pick(4, 7)); s > 0; s-- {
